@@ -62,7 +62,54 @@ def gen_cases(tier, seed):
                         pol = "randn1"
                     cases.append({"cfg": cfg, "policy": pol, "seed": env.subseed(seed, "c07", fam, D, mi, image),
                                   "world": "f64", "cost": 6 if fam == "coupling_umnn" else (2 if image else 1)})
+    # documented floors: the affine coupling's scale is sigmoid(.) + 1e-3 / softplus(.) + 1e-3 - however negative the
+    # conditioner's output, a transformed feature keeps a derivative >= 1e-3 in its own input and stays invertible
+    for i in range(6 if tier == "quick" else 60):
+        cfg = zoo.FAM["coupling_affine"].sample_cfg(rng, tier)
+        cfg["ctx"] = 0
+        cases.append({"cfg": cfg, "policy": "fresh", "huge": [-150.0, -40.0, -1000.0][i % 3], "seed": env.subseed(seed, "c07h", i),
+                      "world": "f64" if i % 2 else "f32", "cost": 1})
     return cases
+
+
+def run_huge(case):
+    r = R(case)
+    cfg = case["cfg"]
+    model = zoo.make(cfg, "fresh", case["seed"])
+    with torch.no_grad():
+        for name, m in model.named_modules():
+            if name.split(".")[-1] in ("final_layer", "l2") and getattr(m, "bias", None) is not None:
+                m.bias.fill_(case["huge"])
+    me = zoo.meta(cfg)
+    x = zoo.sample_inputs(me, 4, case["seed"] + 1, structured=False)
+    T = [i for i, v in enumerate(cfg["mask"]) if v > 0]
+    det = dict(cfg=cfg, conditioner_bias=case["huge"], dtype=str(x.dtype))
+    r.ev()
+    r.count("floor_checks")
+    try:
+        with torch.no_grad():
+            y, lad = model(x, None)
+            xi, lad_i = model.inverse(y, None)
+    except Exception as e:
+        r.viol("forward_raises", "coupling_affine raises with a strongly negative conditioner output", exc=repr(e)[:200], **det)
+        return r.done()
+    if not (torch.isfinite(y).all() and torch.isfinite(lad).all() and torch.isfinite(xi).all() and torch.isfinite(lad_i).all()):
+        r.viol("floor", "coupling_affine returns non-finite numbers when its conditioner output is strongly negative "
+               "(the scale floor of 1e-3 is gone)", logabsdet=lad.tolist()[:3], **det)
+        return r.done()
+    n_t = len(T) * int(np.prod(cfg["shape"][1:])) if len(cfg["shape"]) > 1 else len(T)
+    per_elem = float(lad.min()) / max(n_t, 1)
+    r.worst("floor_logdet_per_element", -per_elem)
+    eps = 1e-12 if x.dtype == torch.float64 else 1e-5
+    if per_elem < np.log(1e-3) - 1e-3:
+        r.viol("floor", "coupling_affine transformed features have a derivative below the documented scale floor of 1e-3",
+               logabsdet_per_transformed_element=per_elem, **det)
+    elif float((xi - x).abs().max()) > 1e4 * eps * (1 + float(x.abs().max())):
+        r.viol("floor", "coupling_affine is not invertible at its scale floor", err=float((xi - x).abs().max()), **det)
+    else:
+        r.cell("coupling_affine", "floor", case["huge"], str(x.dtype))
+    r.sample({"class": "coupling_affine", "huge": case["huge"], "logabsdet_per_element": per_elem})
+    return r.done()
 
 
 def _call(r, fn, z, c, what, fam, cfg):
@@ -76,6 +123,8 @@ def _call(r, fn, z, c, what, fam, cfg):
 
 
 def run_case(case):
+    if case.get("huge") is not None:
+        return run_huge(case)
     r = R(case)
     cfg, pol = case["cfg"], case["policy"]
     fam = cfg["fam"]
